@@ -200,6 +200,7 @@ type sizeStats struct {
 	manyBurst, manyStream              bool // >= 1000 updates in one response, before / after the stream's sync_response
 	over4Atomic, over4WhileObserved    bool
 	bigString, bigBytes, resentOnAgain bool
+	bigLegacy                          bool // a value of >= 512 KiB in the deprecated Update.value field
 }
 
 const (
@@ -248,6 +249,10 @@ func (g *guarded) measure(r *pb.SubscribeResponse) {
 		case *pb.TypedValue_BytesVal:
 			l = len(v.BytesVal)
 			z.bigBytes = z.bigBytes || l >= mib/2
+		}
+		if lv := len(u.GetValue().GetValue()); u.Val == nil && lv > 0 {
+			l = lv
+			z.bigLegacy = z.bigLegacy || l >= mib/2
 		}
 		if l > z.maxValue {
 			z.maxValue = l
@@ -746,6 +751,7 @@ func (h *hub) sizes() sizeStats {
 		z.over4WhileObserved = z.over4WhileObserved || q.over4WhileObserved
 		z.bigString = z.bigString || q.bigString
 		z.bigBytes = z.bigBytes || q.bigBytes
+		z.bigLegacy = z.bigLegacy || q.bigLegacy
 		z.resentOnAgain = z.resentOnAgain || q.resentOnAgain
 	}
 	return z
